@@ -46,6 +46,7 @@ fn main() {
                 "c14" => drive_ops::drive_c14(seed, thorough, &mut out),
                 "c02pairs" => drive_ops::drive_c02pairs(seed, thorough, &mut out),
                 "c15" => drive_ops::drive_c15(seed, thorough, &mut out),
+                "c16" => drive_ops::drive_c16(seed, thorough, &mut out),
                 _ => panic!("unknown family"),
             };
             out.flush().unwrap();
